@@ -20,7 +20,8 @@ open DSymVerif.DS
     (re-checked on the generated constants on every run) -/
 theorem curvFac_table :
     0 < Tables.curvFac ∧ Tables.curvFac % 2 = 0 ∧
-    ((List.range' 1 Tables.genVMax).all fun v => Tables.curvFac % (v : Int) == 0) = true := by decide
+    ((List.range' 1 Tables.genVMax).all fun v => Tables.curvFac % (v : Int) == 0) = true ∧
+    Tables.chamberDivisor = 2 := by decide
 
 theorem curvFac_pos : 0 < curvFac := curvFac_table.1
 
@@ -29,7 +30,7 @@ theorem two_dvd_curvFac : (2 : Int) ∣ curvFac := Int.dvd_of_emod_eq_zero curvF
 theorem dvd_curvFac (v : Nat) (h1 : 1 ≤ v) (h2 : v ≤ Tables.genVMax) : ((v : Nat) : Int) ∣ curvFac := by
   have hm : v ∈ List.range' 1 Tables.genVMax := by
     rw [List.mem_range'_1]; omega
-  have := List.all_eq_true.mp curvFac_table.2.2 v hm
+  have := List.all_eq_true.mp curvFac_table.2.2.1 v hm
   have h0 : Tables.curvFac % ((v : Nat) : Int) = 0 := by simpa using this
   exact Int.dvd_of_emod_eq_zero h0
 
@@ -54,7 +55,8 @@ theorem termZ_exact (c : Ctx) (i v : Nat) (h1 : 1 ≤ v) (h2 : v ≤ Tables.genV
   linarith
 
 theorem half_exact (n : Nat) :
-    ((Int.tdiv (-curvFac) 2 * (n : Int) : Int) : ℚ) = (curvFac : ℚ) * (-(n : ℚ) / 2) := by
+    ((Int.tdiv (-curvFac) Tables.chamberDivisor * (n : Int) : Int) : ℚ) = (curvFac : ℚ) * (-(n : ℚ) / 2) := by
+  rw [curvFac_table.2.2.2]
   have hd : (2 : Int) ∣ -curvFac := (Int.dvd_neg).mpr two_dvd_curvFac
   have h : Int.tdiv (-curvFac) 2 * 2 = -curvFac := by
     rw [Int.tdiv_eq_ediv_of_dvd hd]
